@@ -453,6 +453,9 @@ def gen_tags(rng, pop):
     for i, name in enumerate(names):
         if name.startswith("mark/"):
             e = ("num", "id", [(x,) for x in sorted(rng.sample(ids, rng.randrange(1, min(len(ids), 4) + 1)))])
+        elif rng.random() < 0.08:
+            # a definition that can never match: Parse stores it as the empty set (negated reference: d05297f)
+            e = ("and", [("num", "sport", [(80,)]), ("num", "sport", [(81,)])], False)
         else:
             e = gen_cheap_expr(rng, ids, names[:i] if rng.random() < 0.5 else [], rng.choice([0, 1, 1, 2]), exprs, True)
         exprs[name] = e
